@@ -1,7 +1,8 @@
 /- the list of stateless protocol handlers, one per slice (add an import and an entry per slice) -/
 import Restful.Driver.SExp
+import Restful.Driver.RoutingExtra
 namespace Restful.Driver
 
-def statelessHandlers : List (SExp → Option String) := []
+def statelessHandlers : List (SExp → Option String) := [handleSame, handleClass]
 
 end Restful.Driver
